@@ -49,6 +49,32 @@ pub fn exec(case: &Value) -> Value {
             }
             json!({ "outs": outs })
         }
+        "tpl_api" => {
+            // the programmatic API: `Templates::insert` / `Templates::extend` on one value, then `Rule::apply_templates`
+            let ry = rule_yaml(&case["rule"]);
+            catch_unwind(AssertUnwindSafe(|| {
+                let mut t = Templates::new();
+                let mut res = vec![];
+                for c in case["calls"].as_array().cloned().unwrap_or_default() {
+                    let ok = if c[0] == "insert" {
+                        t.insert(c[1].as_str().unwrap_or("").to_string(), c[2].as_str().unwrap_or("").to_string()).is_ok()
+                    } else {
+                        let m: std::collections::HashMap<String, String> = c[1]
+                            .as_array()
+                            .map(|a| a.iter().map(|e| (e[0].as_str().unwrap_or("").to_string(), e[1].as_str().unwrap_or("").to_string())).collect())
+                            .unwrap_or_default();
+                        t.extend(&Templates::from(m)).is_ok()
+                    };
+                    res.push(if ok { "ok" } else { "dup" });
+                }
+                let r = match Rule::from_str(&ry) {
+                    Ok(r) => r,
+                    Err(_) => return json!("ruleerr"),
+                };
+                json!({"calls": res, "len": t.len(), "rule": rule_out(&r.apply_templates(&t))})
+            }))
+            .unwrap_or(json!("panic"))
+        }
         "tpl_load" => {
             let mut outs: Vec<Value> = vec![];
             for _ in 0..case["instances"].as_u64().unwrap_or(4) {
@@ -130,6 +156,28 @@ pub fn gen(tier: &str, seed: u64, out: &mut dyn FnMut(Value)) {
     ] {
         let rule = json!({"name": "r", "matches": [["$m", s]]});
         out(json!({"op": "tpl_replace", "tpls": tpls, "rule": rule, "instances": 64, "tag": "replace: witnesses", "nt": true}));
+    }
+    // the programmatic API: insert / extend sequences with redefinitions; the rule shows which text survived
+    let n = if thorough { 20000 } else { 2000 };
+    for _ in 0..n {
+        let len = 1 + rng.below(6);
+        let mut calls = vec![];
+        for _ in 0..len {
+            if rng.chance(2, 3) {
+                calls.push(json!(["insert", *rng.pick(&["a", "b", "ab", "c"]), *rng.pick(&["X", "Y", "Z", "{{a}}", ""])]));
+            } else {
+                let k = 1 + rng.below(3);
+                let mut names: Vec<&str> = vec!["a", "b", "ab", "c", "d"];
+                let mut doc = vec![];
+                for _ in 0..k {
+                    let i = rng.below(names.len());
+                    doc.push(json!([names.remove(i), *rng.pick(&["P", "Q", "{{b}}"])]));
+                }
+                calls.push(json!(["extend", doc]));
+            }
+        }
+        let rule = json!({"name": "r", "matches": [["$m", ".x == '{{a}}-{{b}}-{{ab}}-{{c}}-{{d}}'"]], "condition": "$m"});
+        out(json!({"op": "tpl_api", "calls": calls, "rule": rule, "tag": "insert / extend sequences", "nt": true}));
     }
     // loads: sequences of calls, each a list of documents, each a map name -> text
     let n = if thorough { 20000 } else { 2000 };
